@@ -134,6 +134,7 @@ inductive Ty where
   | slice (elem : Ty)          -- []elem ; `slice iface` = []interface{} = an ECAL list
   | emap                       -- map[interface{}]interface{} = an ECAL map
   | other (id : Nat)           -- any other non-interface type (pointers, structs, funcs …)
+  | gmap (k v : Ty)            -- map[k]v other than the ECAL map type
   | named (id : Nat) (under : Ty)   -- a defined type (`type D int64`) with a non-interface underlying type:
                                     -- its own identity, the Kind of `under`
   deriving DecidableEq, Repr, Inhabited
@@ -152,6 +153,7 @@ def isNumeric : Ty → Bool
 abbrev list : Ty := slice iface
 end Ty
 
+mutual
 /-- a Go value as held in an `interface{}`; the texts `c` identify contents the bridge never looks at -/
 inductive Val where
   | nil                              -- the nil interface (ECAL NULL)
@@ -160,11 +162,24 @@ inductive Val where
   | f32 (x : Num)
   | f64 (x : Num)                    -- an ECAL number
   | str (c : String)
-  | list (c : String)                -- []interface{}
-  | map (c : String)                 -- map[interface{}]interface{}
-  | foreign (t : Ty) (c : String)    -- any other value of dynamic type `t` (ECAL function objects, errors, []int …)
+  | list (c : String)                -- []interface{} (an ECAL list; contents not looked at)
+  | map (c : String)                 -- map[interface{}]interface{} (an ECAL map; contents not looked at)
+  | foreign (t : Ty) (c : String)    -- any other value of dynamic type `t` (ECAL function objects, errors …)
   | named (id : Nat) (v : Val)       -- the value `v` converted to the defined type `id`
+  | seq (t : Ty) (xs : Vals)         -- a Go slice / array of element type `t` (`[]int`, `[3]float32`, `[][]int` …)
+  | gomap (kt vt : Ty) (kvs : Vals)  -- a Go map `map[kt]vt`: keys and values alternating
+  | elist (xs : Vals)                -- an ECAL list built by the bridge (contents known)
+  | emapv (kvs : Vals)               -- an ECAL map built by the bridge: keys and values alternating
   deriving DecidableEq, Repr, Inhabited
+inductive Vals where
+  | nil
+  | cons (v : Val) (vs : Vals)
+  deriving DecidableEq, Repr, Inhabited
+end
+
+def Vals.toList : Vals → List Val
+  | .nil => []
+  | .cons v vs => v :: vs.toList
 
 /-- `reflect.TypeOf` -/
 def Val.ty : Val → Option Ty
@@ -178,6 +193,10 @@ def Val.ty : Val → Option Ty
   | .map _ => some .emap
   | .foreign t _ => some t
   | .named id v => v.ty.map (Ty.named id)
+  | .seq t _ => some (.slice t)
+  | .gomap kt vt _ => some (.gmap kt vt)
+  | .elist _ => some .list
+  | .emapv _ => some .emap
 
 /-- signature of the wrapped function as reflect reports it: `params = In(0..NumIn-1)`
     (for a variadic function the last one is the slice type), `results = Out(0..NumOut-1)` -/
@@ -293,13 +312,28 @@ def numericOf : Ty → Val → Option Num
   | .named _ u, .named _ w => numericOf u w
   | _, _ => none
 
+mutual
 /-- `convertResultNumber`: switch over `v.Kind()`, the kind of the *static* result type; for a result
-    declared as an interface (every plugin function: `(interface{}, error)`) the kind of the value in it -/
+    declared as an interface (every plugin function: `(interface{}, error)`) the kind of the value in it.
+    A slice / array / map of Go values becomes an ECAL list / map with every element converted by its
+    element type; `[]interface{}` and `map[interface{}]interface{}` are ECAL values already and are passed
+    on as they are (numbers of other Go types *inside* them are not looked for). -/
 def convertResultNumber (static : Ty) (v : Val) : Val :=
-  let t := if static.isInterface then v.ty.getD static else static
-  match numericOf t v with
-  | some x => .f64 x
-  | none => v
+  match v with
+  | .seq t xs => if t = .iface then v else .elist (convertSeq t xs)
+  | .gomap kt vt kvs => .emapv (convertMap kt vt kvs)
+  | v =>
+    let t := if static.isInterface then v.ty.getD static else static
+    match numericOf t v with
+    | some x => .f64 x
+    | none => v
+def convertSeq (t : Ty) : Vals → Vals
+  | .nil => .nil
+  | .cons v vs => .cons (convertResultNumber t v) (convertSeq t vs)
+def convertMap (kt vt : Ty) : Vals → Vals
+  | .cons k (.cons v rest) => .cons (convertResultNumber kt k) (.cons (convertResultNumber vt v) (convertMap kt vt rest))
+  | _ => .nil
+end
 
 inductive Err where
   | bridge (e : BridgeErr)
